@@ -486,7 +486,8 @@ namespace hgraph
             if (is_target_position())
             {
                 const auto *link = data_.link_storage();
-                if (link != nullptr && link->tracking.last_modified_time > data.last_modified_time())
+                if (link != nullptr && link->tracking.last_modified_time > data.last_modified_time() &&
+                    modified())
                 {
                     return data.value();
                 }
@@ -527,7 +528,8 @@ namespace hgraph
         if (is_target_position())
         {
             const auto *link = data_.link_storage();
-            if (link != nullptr && link->tracking.last_modified_time > data.last_modified_time())
+            if (link != nullptr && link->tracking.last_modified_time > data.last_modified_time() &&
+                modified())
             {
                 return data.value_to_python();
             }
